@@ -38,8 +38,11 @@ UNPROVED = ["norm_p over R: non-negativity, homogeneity and norm_p = norm_1 / no
             "complex / rational vectors (package cnorm, coq/Proofs/VectorCx2.v, VectorCx2Q.v; pinned block coq/Props/pending/C15_cnorm.v.txt): for Vector<Complex<f64>>::norm_inf "
             "(vec_cmplx.rs) and the generic norm_1 (through Signed::abs = (|z|, 0)) the laws (maximum of the moduli, non-negativity, definiteness, homogeneity, triangle inequality, "
             "norm_inf <= norm_1 <= n norm_inf, exact panic condition) and Cauchy-Schwarz for the bilinear dot are proved over C = R x R and (norm_1) over Qc, and searched on "
-            "Complex<f64> (1e-12 slack, entries of moderate magnitude) and Rat (exactly); what stays unproved is every statement 'up to rounding' over Complex<f64> itself, and "
-            "the failure of the laws when |z|^2 leaves the f64 range (same class as the recorded finding f64-square-range, not in the default search for complex data)",
+            "Complex<f64> (1e-12 slack, entries of moderate magnitude) and Rat (exactly); over IEEE binary64 (Flocq) both complex norms are exact on Gaussian integers of integer modulus "
+            "(cnorm_inf_exact_float, cnorm1_exact_float), and in the standard model of floating-point arithmetic with a rounded square root fl|z| = |z|(1+th), |th| <= gam 3, "
+            "fl(norm_inf) = max|z_i|(1+th), |th| <= gam 3, re fl(norm_1) = Sum|z_k|(1+th_k), |th_k| <= gam(n+3) (coq/Proofs/VectorCx2R.v); what stays unproved is the standard model "
+            "itself for Complex<f64> (no Flocq bridge for the complex norms on general data), and the laws FAIL on the real code when re^2 + im^2 leaves the f64 range "
+            "(norm_inf [1e200+0i] = inf, norm_inf [1e-200+1e-200i] = 0: same class as the recorded finding f64-square-range; not in the default search for complex data)",
             "Vector::random: length and range [0,1) observed only"]
 
 MANIFEST = dict(
